@@ -79,6 +79,9 @@ pub fn worker(shard: usize, nshards: usize, seed: u64, tier: Tier, out: &str, tr
         if let Some(tr) = trace {
             let _ = std::fs::write(tr, format!("{i}\n{}", t));
         }
+        if i % 8 == 0 {
+            poison_parses(1);
+        }
         let v = judge(t);
         let h = stable_hash(t.as_str());
         if let Verdict::Pass { nt: true, .. } = v {
